@@ -450,6 +450,8 @@ def positive_value(kind, raw, dt, extra=None):
         if kind == "Tri.diag":
             t = B.TriangularAffine(jnp.zeros(n), jnp.eye(n) + jnp.tril(jnp.full((n, n), 7.0), -1), lower=bool(extra))
             t = eqx.tree_at(lambda t: t.triangular.kwargs["diag"].arr, t, r)
+            # EVERY trainable array moves: the stored full matrix too, its own diagonal included (entries -r_i - 4, mostly negative)
+            t = eqx.tree_at(lambda t: t.triangular.kwargs["arr"], t, jnp.asarray(np.add.outer(np.asarray(r), -2.0 * np.asarray(r)) - 4.0, r.dtype))
             return np.diag(np.asarray(unwrap(t).triangular))
         if kind == "min_scale":
             a = eqx.tree_at(lambda t: t.scale.arr, _affine_with_min_scale(extra), r[0])
@@ -497,6 +499,14 @@ def chk_weightnorm(W, raw, dt):
 
 
 def chk_roundtrip(kind, arg, dt):
+    try:
+        return _chk_roundtrip(kind, arg, dt)
+    except Exception as ex:  # a VALID constructor argument (1e-6 .. 1e6, positive definite, minval < maxval) must be accepted
+        return dict(key=f"roundtrip|{kind}|{arg!r}|{dt}|raises", kind="roundtrip", what=kind, arg=(list(arg) if isinstance(arg, tuple) else arg), dt=dt,
+                    exc=type(ex).__name__ + ": " + str(ex)[:160], law=f"{kind}: a valid constructor argument is accepted and reproduced")
+
+
+def _chk_roundtrip(kind, arg, dt):
     e = EPS[dt]
     with mode(dt):
         if kind == "Normal.scale":
@@ -596,6 +606,10 @@ def search(hints, tier, rng):
         for p in ([0, 0, 3, 3], [0, 2, 2, 2, 4], [0, 1, 1, 3, 4, 5, 7, 7, 8], [0, 0, 2, 4, 4], [0, 1, 4, 4, 1, 5], [[0, 0], [3, 3]], [[0, 3], [3, 0]],
                   [0, 3, 3, 0], [1, 1, 1, 3, 4, 0, 5, 6, 6, 8, 9]):
             add(chk_reject("Permute", p, dt))
+        for v in (100.0, 1e3, 1e4, 1e6, 1e-6):
+            for kind in ("Normal.scale", "StudentT.df", "Exponential.rate"):
+                add(chk_roundtrip(kind, v, dt))
+            add(chk_roundtrip("Uniform", (0.0, v), dt))
         n_it = 60 if q else 600
         for it in range(n_it):
             d = rng.choice([1, 2, 3, 5])
